@@ -127,7 +127,7 @@ class Run:
                     places.append((fn.mod.relpath, fn.node.lineno))
             found = {}
             for rel, line in places:
-                for k, v in new_opaque_constructs(self.A.prog, rel, line, known_funcs()).items():
+                for k, v in new_opaque_constructs(self.A.prog, rel, line, known_funcs(), graphs=self.A.graphs).items():
                     found[k] = max(found.get(k, 0), v)
             return ', '.join(f'{k}: {v}' for k, v in sorted(found.items()))
         except AnalysisError:
